@@ -116,6 +116,9 @@ Next ==
   \/ \E i \in 1..Len(Pool) : \E k \in {"a", "c"} : OpenSetItem(i, k)
 Spec == Init /\ [][Next /\ (Emit => PrintT(ToJson([op |-> "nc_path", path |-> hist'])))]_allvars
 View == file
+\* simulation: random write sequences, emitted once when they reach MaxDepth
+SpecSim == Init /\ [][Next]_allvars
+EmitFinal == (Len(hist) = MaxDepth) => PrintT(ToJson([op |-> "nc_path", path |-> hist]))
 
 (* ---------- properties ---------- *)
 \* every data variable's axes are the file's axes (labels, kind, metadata); dimension names are unique
